@@ -277,3 +277,28 @@ PROPS["C02"] = {
     "quick": [R("TestPropValidity", 3000), R("TestPropLevelNames", 300)],
     "thorough": [R("TestPropValidity", 40000, shards=14, timeout=2400), R("TestPropLevelNames", 2000), F("FuzzDispatchValidity", "150s")],
 }
+
+PROPS["C18"] = {
+    "pkg": "c18", "level": "exploration",
+    "rule": ("parked_dispatch: rapid draws a small real table (0-3 blacklist entries, rewriters, aggregations; 2-5 routes: capture or real sendAllMatch / "
+             "sendFirstMatch with 1-4 real destinations), a park point (after the table's snapshot load; inside capture route i; after carbon route "
+             "r's snapshot load) and ONE admin operation (add/delete route, blacklist entry, rewriter, aggregation, destination; modRoute; modDest). "
+             "A dispatcher is started and parked at the point (verif-tagged after-load callbacks), the operation runs to completion in its own "
+             "goroutine, the dispatcher resumes. Oracle: the parked metric's deliveries (capture routes, per-destination counters incl. drained "
+             "deleted destinations, aggregation in-counters, blacklist/unroutable counters) equal the reference outcome under the table BEFORE or "
+             "under the table AFTER, never a mixture; a metric dispatched after the operation returned sees the new table only; Table.Snapshot() "
+             "equals the model. admin_history: rapid state machine of admin operations (known/unknown keys, indexes valid / = len / > len, bad "
+             "options) vs a model of the four lists, Snapshot() compared after every step, out-of-range rejected with an error and no change. "
+             "concurrent_churn: 2-6 dispatcher goroutines send unique metrics while an admin goroutine adds/deletes volatile routes, blacklist "
+             "entries, rewriters and destinations around permanent catch-all capture routes and a permanent destination: each permanent entity "
+             "must get every metric exactly once (also run under -race). Non-trivial (parked): the dispatcher reached the park point and the "
+             "operation deleted a non-last element; (history): a rejected operation and a non-last delete. Distinct = hash(table, point, op)."),
+    "level_text": "Harness-owned schedules (a dispatcher parked after it loaded a snapshot, one admin operation run to completion, resume) compared with the reference outcome before/after; sequential model of the table view; race-detector stress.",
+    "level_note": "Park points are the places where a dispatcher can hold a previous snapshot (after the table load, inside each capture route, after each carbon route's load); a hand-off to an entity deleted by the operation is observed by draining its input. Liveness of a dispatcher against a deleted route is not asserted (not part of the statement).",
+    "technique": "property-based testing (rapid): schedule-owning parked-dispatcher cases vs reference model; model-based admin histories; -race stress",
+    "assumptions": ["the verif-tagged after-load callbacks mark every point where a configuration snapshot is taken by a dispatcher"],
+    "quick": [R("TestPropParkedDispatch", 2500), R("TestPropAdminHistory", 600, steps=40), R("TestPropConcurrentChurn", 40),
+              R("TestPropConcurrentChurn", 15, race=True)],
+    "thorough": [R("TestPropParkedDispatch", 20000, shards=8, timeout=2400), R("TestPropAdminHistory", 8000, shards=3, steps=60, timeout=2400),
+                 R("TestPropConcurrentChurn", 400, shards=3, timeout=2400), R("TestPropConcurrentChurn", 150, shards=2, race=True, timeout=2400)],
+}
